@@ -57,7 +57,7 @@ def plan(tier, seed):
     cases = []
     for i in range(N_CASES[tier]):
         rng = core.case_rng(seed, PROPERTY, i)
-        forced = {0: 'alzr', 1: 'nialcr', 2: 'almgsi', 3: 'nialcr', 4: 'alzr'}.get(i % 8)
+        forced = {0: 'alzr', 1: 'nialcr', 2: 'almgsi', 3: 'nialcr', 4: 'alzr', 5: 'cuti'}.get(i % 8)   # cuti: binary, two precipitate phases
         cfg = precip_gen.gen_config(rng, system=forced, tier=tier, allow_noniso=(i % 6 == 0), grid_class='in_range')
         if i % 4 == 1:          # small grids so that extension / re-meshing happens often
             cfg['pbm'].update({'cMax': 3e-9, 'bins': 30, 'minBins': 24, 'maxBins': 48, 'adaptive': True})
